@@ -32,6 +32,10 @@ def find_interior_point(halfspaces):
   b = -halfspaces[:, -1]
   bounds = [(None, None)] * (halfspaces.shape[1] - 1) + [(0, None)]
   res = linprog(c, A_ub=A, b_ub=b, bounds=bounds, method="highs-ipm")
+  if not res.success:
+    # The interior-point solver can report a feasible but badly scaled problem as infeasible;
+    # confirm with the simplex solver before declaring the constraints infeasible.
+    res = linprog(c, A_ub=A, b_ub=b, bounds=bounds, method="highs")
   if res.success:
     center = res.x[:-1]
     radius = res.x[-1]
